@@ -279,6 +279,10 @@ Record task := {
   t_qlen : nat;            (* lbc.syncQueue.Len() while this task is processed *)
   t_work : list op;        (* Configurator operations the task's handler performs (cluster state is external) *)
   t_found : bool;          (* endpointslice: resourcesFound *)
+  t_reports : bool;        (* the handler has an object to report an error on (false when the task is
+                              the deletion of an object that is already gone: the error is only logged) *)
+  t_all_reports : bool;    (* updateAllConfigs has something to report an error on: a resource, or the
+                              ConfigMap together with the GlobalConfiguration *)
   t_mainver : Z;           (* what updateAllConfigs would generate now: main config ... *)
   t_all : list res         (* ... and every resource *)
 }.
@@ -298,6 +302,11 @@ Record sout := {
   reported : bool;         (* a failure was reported on resources / the ConfigMap (event, status) *)
   swallowed : bool         (* a failure was only written to the controller log *)
 }.
+
+(* syncEndpointSlices only logs the error of UpdateEndpoints*; every other handler reports the
+   error of its operation on the resource (event + status) when the resource still exists *)
+Definition reports (t : task) : bool :=
+  match t_kind t with TEndpointSlice => false | TConfigMap => t_all_reports t | TOther => t_reports t end.
 
 (* handler work: every operation's error is reported by the handler on the resources it concerns *)
 Fixpoint run_work (e : env) (s : cst) (os : list op) : cst * list ev * bool :=
@@ -329,7 +338,8 @@ Definition phase_fin (e : env) (t : task) (fin : bool) (s : cst) : cst * list ev
   else (s, [], false).
 
 (* if lbc.batchSyncEnabled && lbc.syncQueue.Len() == 0 { EnableReloads(); updateAllConfigs() or
-   ReloadForBatchUpdates(enableBatchReload), whose error is only logged } *)
+   ReloadForBatchUpdates(enableBatchReload), whose error is only logged }
+   result: state, log, failure of updateAllConfigs, failure of ReloadForBatchUpdates *)
 Definition phase_end (e : env) (t : task) (bend ua eb : bool) (s : cst) : cst * list ev * bool * bool :=
   if bend then
     if ua then let '(s', l, r) := update_all e t (set_enabled true s) in (s', EEnable :: l, r, false)
@@ -347,15 +357,18 @@ Definition sync (e : env) (c : ctl) (t : task) : ctl * sout :=
   (* if lbc.batchSyncEnabled && task.Kind != endpointslice *)
   let ebr1 := ebr c || (batch1 && negb (is_endp_task k)) in
   let uab1 := uab c || (is_cm_task k && batch1) in
-  let '(cfg2, l2, rep2) := handler e t (ready c && negb batch1) cfg1 in
+  let '(cfg2, l2, f2) := handler e t (ready c && negb batch1) cfg1 in
+  let rep2 := f2 && reports t in
+  let sw2 := f2 && negb (reports t) in
   let ebr2 := ebr1 || (is_endp_task k && batch1 && t_found t) in
   let fin := negb (ready c) && Nat.eqb (t_qlen t) 0 in
-  let '(cfg3, l3, rep3) := phase_fin e t fin cfg2 in
+  let '(cfg3, l3, f3) := phase_fin e t fin cfg2 in
   let ready3 := ready c || fin in
   let bend := batch1 && Nat.eqb (t_qlen t) 0 in
-  let '(cfg4, l4, rep4, sw4) := phase_end e t bend uab1 ebr2 cfg3 in
+  let '(cfg4, l4, f4, sw4) := phase_end e t bend uab1 ebr2 cfg3 in
+  let ar := t_all_reports t in
   ({| ready := ready3; batch := batch1 && negb bend; ebr := ebr2 && negb bend; uab := uab1; cfg := cfg4 |},
-   {| slog := l1 ++ l2 ++ l3 ++ l4; reported := rep2 || rep3 || rep4; swallowed := sw4 |}).
+   {| slog := l1 ++ l2 ++ l3 ++ l4; reported := rep2 || (f3 || f4) && ar; swallowed := sw2 || (f3 || f4) && negb ar || sw4 |}).
 
 Fixpoint run_sync (e : env) (c : ctl) (ts : list task) : ctl * list sout :=
   match ts with
